@@ -1,7 +1,9 @@
 (* Extraction of the lock model (engine `lock`, property C10).  ExtrOcamlBasic only. *)
 From Coq Require Import ExtrOcamlBasic.
+From Coq Require Import Ascii.
 From Grog Require Import Lock.
 Extraction Language OCaml.
 Extraction "model.ml" Lock.step Lock.run Lock.mk_init Lock.next_event Lock.holds_b
   Lock.read_before_write Lock.remove_of_unexamined_inode Lock.actor
-  Lock.w1_sched Lock.w2_sched.
+  Lock.w1_sched Lock.w2_sched
+  Ascii.eqb (* only so that model.ml defines [ascii], which the shared ocaml/wire.ml mentions *).
